@@ -8,6 +8,7 @@ import numpy as np
 
 import common
 import gen
+import thr_common
 from common import Case, Issue, q, ql, il, line
 
 ID = "C17"
@@ -26,14 +27,18 @@ EXPLANATION = ("Theorems C17_* prove for ALL non-decreasing x with duplicates ca
                "predicates hold on the model with eps = 0; threshold_at_metric is the inversion on all scores / "
                "linspace / given points. The correspondence run calls utils.invert_pl_function and "
                "Scores.threshold_at_metric of /repo, compares number and position of solutions with the model and "
-               "evaluates the Lean spec predicates on the implementation's own output.")
+               "evaluates the Lean spec predicates on the implementation's own output; every interpolated point is also compared "
+               "with the exact inversion of the SAME float inputs within 4 x plEps (theorem segPoint_fl_error under the standard "
+               "model of floating-point arithmetic, driver op plbound, u = 2^-53), and the number of points must agree exactly.")
 TRUSTED_BASE = ["Lean 4.33 kernel", "axioms propext/Classical.choice/Quot.sound only",
                 "hand-written model SA/Model/InvertPL.lean tied to /repo by this correspondence run",
                 "np.nonzero / np.argmin / np.linspace / np.sort by documented meaning",
-                "harness and driver parsing; tolerance 1e-9 (scaled) on interpolated positions"]
+                "harness and driver parsing; tolerance 1e-9 (scaled) on interpolated positions against the model on exact metric "
+                "values, 4 x the theorem bound plEps against the model on the float metric values",
+                "IEEE 754 double arithmetic satisfies the standard model |fl x - x| <= 2^-53 |x| (inputs in [2^-200, 2^200])"]
 ASSUMPTIONS = ["x non-decreasing, duplicates carry equal y, finite values (the documented precondition)",
-               "exact rationals in place of doubles: that rounding of (1-la)*x[j]+la*x[j+1] does not move a point "
-               "onto the next segment is observed, not proved",
+               "exact rationals in place of doubles: rounding of (1-la)*x[j]+la*x[j+1] is bounded by segPoint_fl_error (at most about 9 u max|x|, u = 2^-53, i.e. 4 to 5 ulp "
+               "of the segment's larger end point); that it does not move a point onto the next segment is observed, not proved",
                "for threshold_at_metric the six rate metrics are modelled; a callable is one of them wrapped in a lambda"]
 
 NAMES = {"tpr": ["tpr", "tar"], "fnr": ["fnr", "frr"], "tnr": ["tnr", "trr"], "fpr": ["fpr", "far"],
@@ -41,7 +46,7 @@ NAMES = {"tpr": ["tpr", "tar"], "fnr": ["fnr", "frr"], "tnr": ["tnr", "trr"], "f
 
 
 def n_cases(tier):
-    return 1200 if tier == "quick" else 20000
+    return 3200 if tier == "quick" else 20000
 
 
 # --------------------------------------------------------------------------------------
@@ -257,6 +262,42 @@ def _compare(o, key_res, key_lens, ts, obs, scale, what, sig, case, skip_count):
     return iss
 
 
+def _float_bound(o2, ts, obs, what, sig, skip):
+    """theorem-derived comparison (SA.segPoint_fl_error): the exact model on the SAME float inputs the implementation
+    inverted returns the same number of points (the crossing tests are exact float comparisons) and every interpolated
+    point is within `plEps` (x FLBOUND_SLACK) of the model's; a fallback sample is returned unchanged (bound 0)"""
+    iss = []
+    worst = None
+    if "err" in o2 or "ERR" in o2:
+        return iss, worst
+    flat, eps, lens = common.pfracs(o2["res"]), common.pfracs(o2["eps"]), common.pints(o2["mlens"])
+    if len(lens) != len(obs):
+        return iss, worst
+    pos = 0
+    for k, n in enumerate(lens):
+        mz, me = flat[pos:pos + n], eps[pos:pos + n]
+        pos += n
+        if skip[k]:
+            continue
+        if len(obs[k]) != n:
+            iss.append(Issue("DISAGREE", "float-bound", f"{what} target={ts[k]}: impl returns {len(obs[k])} points {obs[k]}, the "
+                             f"exact model on the same float inputs {n}: {[float(v) for v in mz]}", sig + "/float-bound/count"))
+            continue
+        for a, b, e in zip(obs[k], mz, me):
+            fa = common.fr(a)
+            if fa is None or isinstance(fa, float):
+                continue
+            d = abs(fa - b)
+            ratio = d / e if e > 0 else (Fraction(0) if d == 0 else Fraction(10**6))
+            worst = ratio if worst is None or ratio > worst else worst
+            if d > thr_common.FLBOUND_SLACK * e:
+                iss.append(Issue("DISAGREE", "float-bound", f"{what} target={ts[k]}: impl {a} model {float(b)} differ by "
+                                 f"{float(d):.3e} > {thr_common.FLBOUND_SLACK} x {float(e):.3e} (theorem bound plEps; ratio "
+                                 f"{float(ratio):.2f})", sig + "/float-bound"))
+                break
+    return iss, worst
+
+
 # --------------------------------------------------------------------------------------
 # invert_pl_function
 # --------------------------------------------------------------------------------------
@@ -309,8 +350,11 @@ def _build_invpl(inp) -> Case:
     eps = Fraction(1, 10**9) * Fraction(scale)
     ln = line("invpl", x=ql(x), y=ql(y), ts=ql(ts), eps=q(eps), obs=ql([v for z in obs for v in z]),
               lens=il([len(z) for z in obs]))
+    # second line: exact model + theorem-derived bound per returned point, on the same float inputs
+    ln2 = line("plbound", x=ql(x), y=ql(y), ts=ql(ts), u=q(thr_common.U53))
+    fl_ok_inputs = thr_common.fl_in_range(x) and thr_common.fl_in_range(y) and thr_common.fl_in_range(ts)
     inp["_evals"] = max(1, len(ts))
-    case = Case(ID, inp, [ln], None, (), 0, pre)
+    case = Case(ID, inp, [ln, ln2], None, (), 0, pre)
     tags = ["invpl", f"x={inp['xk']}", f"y={inp['yk']}", "scalar-target" if inp["scalar"] else "array-target",
             f"n={'0' if not x else '1' if len(x) == 1 else '2-12' if len(x) <= 12 else '13-40'}"]
     if len(set(x)) < len(x):
@@ -352,6 +396,12 @@ def _build_invpl(inp) -> Case:
                 sk = len(d) > 1 and (d[1] - d[0]) <= Fraction(1, 10**9) * Fraction(tscale + scale)
             skip.append(sk)
         iss += _compare(o, "res", "mlens", ts, obs, scale, what, sig, case, skip)
+        worst = None
+        if fl_ok_inputs:
+            # float-bound: the fallback index is decided by float |y - t| (near-ties may reorder): skipped as above
+            fb, worst = _float_bound(outs[1], ts, obs, what, sig, skip)
+            iss += fb
+        case.tags = case.tags + ("float-bound ratio " + thr_common.fl_bucket(worst),)
         return iss
 
     case.judge = judge
@@ -460,8 +510,16 @@ def _build_thrmetric(inp) -> Case:
               sorted=0, metric=metric, pk=inp["pk"], k=int(inp["k"]), parr=ql(inp["parr"]), ts=ql(ts),
               eps=q(eps), epsp=q(epsp), opts=ql(opts or []), obs=ql([v for z in obs for v in z]),
               lens=il([len(z) for z in obs]))
+    # second line (when the call into invert_pl_function was observed and the metric values are NaN-free): the exact
+    # inversion of the SAME float points / float metric values the implementation inverted, with the theorem's bound
+    lines_ = [ln]
+    fl_line = bool(calls) and raised is None and opts is not None and oys is not None and len(opts) == len(oys) \
+        and all(math.isfinite(v) for v in opts + oys) and thr_common.fl_in_range(opts) and thr_common.fl_in_range(oys) \
+        and thr_common.fl_in_range(ts)
+    if fl_line:
+        lines_.append(line("plbound", x=ql(opts), y=ql(oys), ts=ql(ts), u=q(thr_common.U53)))
     inp["_evals"] = max(1, len(ts))
-    case = Case(ID, inp, [ln], None, (), 0, pre)
+    case = Case(ID, inp, lines_, None, (), 0, pre)
     tags = ["thrmetric", f"points={inp['pk']}", f"via={inp['via']}", f"metric={metric}", inp["stream"],
             f"cfg={inp['sc']},{inp['ec']}", "scalar-target" if inp["scalar"] else "array-target"]
     if raised is not None:
@@ -476,6 +534,17 @@ def _build_thrmetric(inp) -> Case:
         call_desc = (f"Scores(pos={pos}, neg={neg}, ep={inp['ep']}, en={inp['en']}, {inp['sc']},{inp['ec']})"
                      f".threshold_at_metric({ts}, {metric} via {inp['via']}, points="
                      f"{None if inp['pk'] == 'none' else inp['k'] if inp['pk'] == 'int' else inp['parr']})")
+        if fl_line and "err" not in outs[1] and "ERR" not in outs[1]:
+            # no skip list here: both sides see the same float metric values, so the crossing tests agree exactly; only
+            # the fallback index (argmin of rounded |y - t|) may differ on near-ties -> skip targets without a crossing
+            # whose two smallest |y - t| are within rounding of each other
+            sk2 = []
+            for t in ts:
+                dd = sorted({abs(Fraction(v) - Fraction(t)) for v in oys})
+                sk2.append(len(dd) > 1 and (dd[1] - dd[0]) <= Fraction(1, 2**40) * (abs(Fraction(t)) + 1))
+            fb, worst = _float_bound(outs[1], ts, obs, call_desc, sig, sk2)
+            iss += fb
+            case.tags = case.tags + ("float-bound ratio " + thr_common.fl_bucket(worst),)
         if "err" in o:
             if raised is None:
                 iss.append(Issue("DISAGREE", "error", f"model raises {o['err']}, implementation returned: {call_desc}", sig + "/error"))
